@@ -268,7 +268,7 @@ def ObjRep (P : Offsets.Parsers (Prim R) (Dict R)) (bytes : List UInt8) (o : Sto
 def SecRep (P : Offsets.Parsers (Prim R) (Dict R)) (bytes : List UInt8) (s : Sec) : Prop :=
   s.off ≤ bytes.length ∧
   ∀ ext : List UInt8, (bytes ++ ext).length ≤ fileMax → ∃ T, P.xrefAt ((bytes ++ ext).drop s.off) = .ok (s.subs, T) ∧ P.sizeOf T = .ok s.size ∧
-    P.prevOf T = s.prev.map Out.ok
+    P.prevOf T = s.prev.map Out.ok ∧ dictGet T SaveBytes.kRoot = some (.ref s.root.1 s.root.2)
 
 structure Rep (P : Offsets.Parsers (Prim R) (Dict R)) (bytes : List UInt8) (st : St (Prim R)) : Prop where
   len : bytes.length = st.len
@@ -325,7 +325,7 @@ theorem prevChain_revs (P : Offsets.Parsers (Prim R) (Dict R)) (bytes : List UIn
             obtain ⟨hmem, hoff⟩ := secAt_some hsa
             obtain ⟨older, h1, h2, h3, h4, h5, h6, h7⟩ := ih s.prev (p :: seen) rest hpc
             obtain ⟨hle, hx⟩ := hrep.secs s hmem
-            obtain ⟨T, hT, _, hprev⟩ := hx [] (by simpa using hrep.small)
+            obtain ⟨T, hT, _, hprev, _⟩ := hx [] (by simpa using hrep.small)
             simp only [List.append_nil] at hT
             have hread : Offsets.ReadsAt P bytes st.start ⟨p, s.subs, T⟩ := by
               have := hrep.len; have := hrep.small
@@ -361,7 +361,7 @@ theorem reload_ok_spec {V : Type} (st : St V) (c : Bool) (dr : Doc V) (h : reloa
     ∃ s chain, st.start + st.startxref < st.len ∧ secAt st.secs (st.start + st.startxref) = some s ∧ s.size ≤ MAX_ID ∧
       prevChain st.secs st.start (st.secs.length + 1) s.prev [] = .ok chain ∧
       mergeAll (newTable s.size) (s.subs :: chain) = .ok dr.st.refs ∧
-      dr.st = { st with refs := dr.st.refs, changes := [], cache := [], cached := c } := by
+      dr.st = { st with refs := dr.st.refs, changes := [], cache := [], cached := c } ∧ dr.tr.root = s.root := by
   unfold reload at h
   simp only at h
   by_cases h1 : st.start + st.startxref ≥ st.len
@@ -384,7 +384,7 @@ theorem reload_ok_spec {V : Type} (st : St V) (c : Bool) (dr : Doc V) (h : reloa
             | ok tr =>
               simp only [hl, Out.ok.injEq] at h
               subst h
-              exact ⟨s, chain, by omega, rfl, by omega, hc, hm, rfl⟩
+              exact ⟨s, chain, by omega, rfl, by omega, hc, hm, rfl, (loadTrailer_ok _ _ _ _ _ hl).1⟩
             | err => simp [hl] at h
             | panic => simp [hl] at h
             | oof => simp [hl] at h
@@ -399,12 +399,13 @@ theorem reload_ok_spec {V : Type} (st : St V) (c : Bool) (dr : Doc V) (h : reloa
 theorem open_of_rep (P : Offsets.Parsers (Prim R) (Dict R)) (bytes : List UInt8) (st : St (Prim R))
     (hrep : Rep P bytes st) (c : Bool) (dr : Doc (Prim R)) (hr : reload st c = .ok dr) (fuel : Nat)
     (hfuel : st.secs.length + 1 ≤ fuel) :
-    ∃ T, Offsets.openFile P fuel bytes = .ok (st.start, dr.st.refs, T) := by
-  obtain ⟨s, chain, hlt, hsa, hsz, hpc, hm, _⟩ := reload_ok_spec st c dr hr
+    ∃ T, Offsets.openFile P fuel bytes = .ok (st.start, dr.st.refs, T) ∧
+      dictGet T SaveBytes.kRoot = some (.ref dr.tr.root.1 dr.tr.root.2) := by
+  obtain ⟨s, chain, hlt, hsa, hsz, hpc, hm, _, hroot⟩ := reload_ok_spec st c dr hr
   obtain ⟨hmem, hoff⟩ := secAt_some hsa
   obtain ⟨older, h1, h2, h3, h4, h5, _, h7⟩ := prevChain_revs P bytes st hrep _ _ _ _ hpc
   obtain ⟨hle, hx⟩ := hrep.secs s hmem
-  obtain ⟨T, hT, hsize, hprev⟩ := hx [] (by simpa using hrep.small)
+  obtain ⟨T, hT, hsize, hprev, hTroot⟩ := hx [] (by simpa using hrep.small)
   simp only [List.append_nil] at hT
   have hlen := hrep.len
   have hfits : bytes.length ≤ OffLex.usizeMax := by have := hrep.small; unfold fileMax at this; unfold OffLex.usizeMax; omega
@@ -418,7 +419,7 @@ theorem open_of_rep (P : Offsets.Parsers (Prim R) (Dict R)) (bytes : List UInt8)
   simp only [List.map_cons, h1, hm, Offsets.withTrailer] at this
   have hh := hrep.header [] (by simpa using hrep.small)
   simp only [List.append_nil] at hh
-  exact ⟨T, by simp only [Offsets.openFile, hh, this]⟩
+  exact ⟨T, by simp only [Offsets.openFile, hh, this], by rw [hroot]; exact hTroot⟩
 
 theorem directBody_zero (P : Offsets.Parsers (Prim R) (Dict R)) (rl : Nat → Out (Offsets.Obj (Prim R))) (buf : List UInt8)
     (start pos : Nat) (fl : Offsets.Flags) :
@@ -724,7 +725,7 @@ theorem rep_saveB (fmt : R → List UInt8) (env : Env R) (hd : env.decrypt = non
         rw [← hdrop]; unfold fileMax at hx; simp only [List.length_drop]; omega
       have hxa := xrefAt_saved fmt { env with fileOffset := 0 } hd dec hdec b.doc.tr (prep b.doc).infoRef b.ids i hbd hxid
         hrows hfits body hbody ext hx2
-      refine ⟨xrefDict b.doc.tr b.ids (prep b.doc).infoRef i, ?_, ?_, ?_⟩
+      refine ⟨xrefDict b.doc.tr b.ids (prep b.doc).infoRef i, ?_, ?_, ?_, hf.root⟩
       · show XrefTable.xrefAt { env with fileOffset := 0 } (stmC { env with fileOffset := 0 } dec)
           ((b'.bytes ++ ext).drop (b.doc.st.start + i.xpos)) = _
         rw [hdrop]; exact hxa
